@@ -5,6 +5,7 @@ import (
 	"crypto/sha256"
 	"encoding/hex"
 	"fmt"
+	"os"
 	"sort"
 	"sync"
 	"sync/atomic"
@@ -107,7 +108,22 @@ func NewNode(cfg NodeCfg) *Node {
 		hosted[c] = pocketTypes.HostedBlockchain{ID: c, URL: url}
 	}
 	hb := &pocketTypes.HostedBlockchains{M: hosted, L: sync.RWMutex{}}
-	pocketTypes.InitConfig(hb, logger, sdk.DefaultTestingPocketConfig())
+	// A full node always runs with at least one servicer identity (its own key): that is what initialises the global
+	// session / evidence caches the dispatch, relay and claim-validation paths use. The evidence store is an on-disk
+	// LevelDB under DataDir, so every node process gets its own directory.
+	pcfg := sdk.DefaultTestingPocketConfig()
+	dataDir := os.Getenv("VERIF_DATADIR")
+	if dataDir == "" {
+		d, err := os.MkdirTemp("", "verif-datadir-")
+		if err != nil {
+			panic(err)
+		}
+		dataDir = d
+	}
+	pcfg.PocketConfig.DataDir = dataDir
+	pocketTypes.CleanPocketNodes()
+	pocketTypes.AddPocketNode(Key(KeyNode0), logger)
+	pocketTypes.InitConfig(hb, logger, pcfg)
 	pocketTypes.InitClientBlockAllowance(10000)
 	sdk.InitCtxCache(20)
 	n := &Node{Cfg: cfg, TM: &stubTM{}}
